@@ -254,6 +254,18 @@ def corpus():
     fz2 = [dict(r) for r in fz]
     fz2[2] = dict(fz2[2], sfl=(D(-2500, 2), True))      # forced non-zero value
     c.append((fz2, o(datetime.date(2020, 5, 20)), False))
+    # a split of all affiliates inside the window of a later superficial loss is re-emitted once per affiliate;
+    # one of them only starts trading after the date, so the copies are the only rows naming an affiliate
+    ls = [mkrow(o(datetime.date(2021, 1, 5)), "Buy", None, sh=D(100), aps=D(10), com=None),
+          mkrow(o(datetime.date(2021, 11, 20)), "Buy", None, sh=D(10), aps=D(12), com=None),
+          mkrow(o(datetime.date(2021, 12, 1)), "Split", None, split=("2", "1")),
+          mkrow(o(datetime.date(2021, 12, 15)), "Sell", None, sh=D(40), aps=D(4), com=None),
+          mkrow(o(datetime.date(2021, 12, 20)), "Buy", None, sh=D(20), aps=D(4), com=None),
+          mkrow(o(datetime.date(2022, 2, 1)), "Buy", "Spouse", sh=D(30), aps=D(5), com=None),
+          mkrow(o(datetime.date(2022, 3, 1)), "Sell", "Spouse", sh=D(10), aps=D(7), com=None),
+          mkrow(o(datetime.date(2022, 3, 5)), "Sell", None, sh=D(50), aps=D(7), com=None)]
+    c.append((ls, o(datetime.date(2021, 12, 10)), False))
+    c.append((ls, o(datetime.date(2021, 12, 10)), True))
     return c
 
 
